@@ -6,13 +6,18 @@ def instances(tier):
            (T, 'VH_C17_account_tl', [], {}), (T, 'VH_C17_account_tlb', [], {})]
     for d in ([1, 8, 30] if tier == 'quick' else list(range(1, 31))):
         out.append((T, 'VH_C17_anycast', [d], {}))
+    for (which, flags) in ([(1, 2)] if tier == 'quick' else [(0, 4), (1, 4)]):
+        out.append((T, 'VH_C17_friendly_roundtrip', [which, flags], {'weight': 2000 if which == 0 else 1000}))
+    for p in ([0, 1, 2, 23, 44, 45, 46, 47] if tier == 'quick' else list(range(48))):
+        for wc in ([0] if tier == 'quick' else [0, -1]):
+            out.append((T, 'VH_C17_friendly_corrupt', [p, wc], {'weight': 10 * (50 - p)}))
     return out
 
 
 CHECK = dict(
-    id='C17', pkgs=['ton'], init_pkgs=['std:io'], instances=instances, opts={'budget_s': 1200},
-    level_text='TL form (LE32 workchain + 32 raw bytes) and TL-B form (ToMsgAddress / AccountIDFromTlb, anycast rewrite for the stated depths) of AccountID round-trip for all addresses and workchains; shard algebra (ParseShardID/Encode/MatchAccountID/MatchBlockID, shardChild/shardParent, convertShardIdent) is executed symbolically for ALL 2^64 shard ids and all account prefixes and compared with loop-written prefix references.',
+    id='C17', pkgs=['ton'], init_pkgs=['std:io', 'std:encoding/base64', 'std:github.com/snksoft/crc', 'utils'], instances=instances, opts={'budget_s': 1200},
+    level_text='TL form (LE32 workchain + 32 raw bytes) and TL-B form (ToMsgAddress / AccountIDFromTlb, anycast rewrite for the stated depths) of AccountID round-trip for all addresses and workchains; shard algebra (ParseShardID/Encode/MatchAccountID/MatchBlockID, shardChild/shardParent, convertShardIdent) is executed symbolically for ALL 2^64 shard ids and all account prefixes and compared with loop-written prefix references.  User-friendly form (real base64 codec, utils.Crc16 on output, snksoft/crc XMODEM on input): a fixed account with every value of the last address byte (thorough: every int8 workchain) and the flag combination testnet+non-bounceable (thorough: every combination, symbolic) round-trips; the 48-character text with the character at position p replaced by ANY other base64url digit is rejected (quick: 8 positions incl. both ends and the checksum characters; thorough: all 48).',
     level_note='Full 64-bit domain for the shard algebra (no bound other than the types).',
     bounds={'shard ids': 'all 2^64', 'accounts': 'all 256-bit addresses (first 8 bytes are the ones read)'},
-    outside_claim=['user-friendly base64 form and its CRC16 (whole-stream CRC reasoning did not fit the session: not built)', 'raw text / JSON form (decimal text of symbolic integers)', 'ADNL base32 form'],
+    outside_claim=['user-friendly form for arbitrary 256-bit addresses (the CRC16 of 34 symbolic bytes through two different implementations is out of reach: the account part is fixed except one byte)', 'the + / alphabet on input', 'raw text / JSON form (decimal text of symbolic integers)', 'ADNL base32 form'],
 )
